@@ -235,6 +235,7 @@ def run_one(ck, prog):
         ck.ob("C06.3", "main-thread-branch-exits", bool(exits) and all(fs[0] not in c.cfg.reachable_from(0, avoid=set()) or not c.cfg.dominates(fs[0], e) for e in exits), fn=T.PANIC, detail="the main thread (no stack info) must not free a TLS block; it exits the process")
 
     T.check_tls_outlives_user_fn(ck, prog, "C06.3")
+    T.check_tls_not_read_after_free(ck, prog, "C06.3")
     # no use of the TLS block after it has been freed: after the free, nothing may be read or written through a pointer/reference
     # obtained from get_tls_ptr() (the block's contents must have been copied out before)
     for p2, fs in sorted(tls_frees.items()):
